@@ -294,7 +294,8 @@ pub fn inject_one(rng: &mut Rng, base: &TsDoc, which: usize) -> Option<Fault> {
             match which {
                 22 => {
                     holder.fields.remove(fi);
-                    if holder.fields.is_empty() && !holder.ext {
+                    if holder.fields.is_empty() && (!holder.ext || (holder.dirs.is_empty() && holder.implements.is_empty())) {
+                        // (an extension left without any content would be a syntax error, not this fault)
                         holder.fields.push(FieldDef { desc: None, name: nm("filler"), args: vec![], ty: Ty::named("Int"), dirs: vec![] });
                     }
                     done!("TS7", format!("interface-field-missing|{}", kind_label(kind)));
